@@ -77,6 +77,8 @@ module Coq_Pos :
 
   val pred_double : positive -> positive
 
+  val pred_N : positive -> n
+
   type mask = Pos.mask =
   | IsNul
   | IsPos of positive
@@ -96,6 +98,8 @@ module Coq_Pos :
 
   val iter : ('a1 -> 'a1) -> 'a1 -> positive -> 'a1
 
+  val pow : positive -> positive -> positive
+
   val compare_cont : comparison -> positive -> positive -> comparison
 
   val compare : positive -> positive -> comparison
@@ -113,6 +117,8 @@ module Coq_Pos :
   val coq_lxor : positive -> positive -> n
 
   val shiftl : positive -> n -> positive
+
+  val testbit : positive -> n -> bool
 
   val iter_op : ('a1 -> 'a1 -> 'a1) -> positive -> 'a1 -> 'a1
 
@@ -141,6 +147,8 @@ module N :
 
   val div2 : n -> n
 
+  val pow : n -> n -> n
+
   val pos_div_eucl : positive -> n -> n * n
 
   val div_eucl : n -> n -> n * n
@@ -159,6 +167,8 @@ module N :
 
   val shiftr : n -> n -> n
 
+  val testbit : n -> n -> bool
+
   val to_nat : n -> nat
 
   val of_nat : nat -> n
@@ -167,6 +177,8 @@ module N :
 val nth : nat -> 'a1 list -> 'a1 -> 'a1
 
 val nth_error : 'a1 list -> nat -> 'a1 option
+
+val rev : 'a1 list -> 'a1 list
 
 val map : ('a1 -> 'a2) -> 'a1 list -> 'a2 list
 
@@ -312,15 +324,43 @@ val g_AttributesEncodedLen : guard list
 
 val g_Attributes_encodeTo : guard list
 
+val g_Date : guard list
+
+val g_IFID : guard list
+
+val g_IPAddr : guard list
+
+val g_IPv6Addr : guard list
+
+val g_IPv6Prefix : guard list
+
+val g_Integer : guard list
+
+val g_Integer64 : guard list
+
 val g_IsAuthenticRequest : guard list
 
 val sW_IsAuthenticRequest : z list list list
 
 val g_IsAuthenticResponse : guard list
 
+val g_NewBytes : guard list
+
+val g_NewDate : guard list
+
+val g_NewIFID : guard list
+
+val g_NewIPv6Prefix : guard list
+
+val g_NewString : guard list
+
+val g_NewTLV : guard list
+
 val g_NewTunnelPassword : guard list
 
 val g_NewUserPassword : guard list
+
+val g_NewVendorSpecific : guard list
 
 val sW_Packet_Encode : z list list list
 
@@ -330,9 +370,15 @@ val g_Parse : guard list
 
 val g_ParseAttributes : guard list
 
+val g_Short : guard list
+
+val g_TLV : guard list
+
 val g_TunnelPassword : guard list
 
 val g_UserPassword : guard list
+
+val g_VendorSpecific : guard list
 
 type avp = { atype : z; aval : bytes }
 
@@ -422,6 +468,118 @@ val tp_loop :
 
 val tunnel_password :
   (bytes -> bytes) -> bytes -> bytes -> bytes -> (bytes * bytes) res
+
+val dec_uint : guard list -> bytes -> n res
+
+val integer : bytes -> n res
+
+val short : bytes -> n res
+
+val integer64 : bytes -> n res
+
+val new_integer : n -> bytes
+
+val new_short : n -> bytes
+
+val new_integer64 : n -> bytes
+
+val new_string : bytes -> bytes res
+
+val new_bytes : bytes -> bytes res
+
+val all_zero : bytes -> bool
+
+val to4 : bytes -> bytes option
+
+val v4_in_v6_prefix : bytes
+
+val to16 : bytes -> bytes option
+
+val ipaddr : bytes -> bytes res
+
+val new_ipaddr : bytes -> bytes res
+
+val ipv6addr : bytes -> bytes res
+
+val new_ipv6addr : bytes -> bytes res
+
+val ifid : bytes -> bytes res
+
+val new_ifid : bytes -> bytes res
+
+val date : bytes -> z res
+
+val new_date : z -> bytes res
+
+val vendor_specific : bytes -> (n * bytes) res
+
+val new_vendor_specific : n -> bytes -> bytes res
+
+val tlv_dec : bytes -> (n * bytes) res
+
+val new_tlv : n -> bytes -> bytes res
+
+val byte_ones : n -> nat option
+
+val mask_ones : bytes -> nat option
+
+val mask_size : bytes -> nat * nat
+
+val keep_top : n -> nat -> n
+
+val new_ipv6prefix : bytes -> bytes -> bytes res
+
+val cidr_mask : nat -> nat -> bytes
+
+val low_zero : n -> nat -> bool
+
+val ipv6prefix : bytes -> (bytes * bytes) res
+
+val spec_dec_uint : nat -> bytes -> n res
+
+val spec_enc_uint : nat -> n -> bytes
+
+val spec_new_octets : bytes -> bytes res
+
+val v4_mapped_prefix : bytes
+
+val ip_canon : bytes -> bytes option
+
+val spec_new_ipaddr : bytes -> bytes res
+
+val spec_fixed : nat -> bytes -> bytes res
+
+val spec_new_ipv6addr : bytes -> bytes res
+
+val spec_new_date : z -> bytes res
+
+val spec_date : bytes -> z res
+
+val spec_new_vsa : n -> bytes -> bytes res
+
+val spec_vsa : bytes -> (n * bytes) res
+
+val spec_new_tlv : n -> bytes -> bytes res
+
+val spec_tlv6929 : bytes -> (n * bytes) res
+
+val byte_bits : n -> bool list
+
+val bits_of : bytes -> bool list
+
+val leading_ones : bool list -> nat
+
+val spec_mask_ones : bytes -> nat option
+
+val clear_low : n -> nat -> n
+
+val apply_mask : bytes -> nat -> bytes
+
+val mask_of : nat -> nat -> bytes
+
+val spec_new_ipv6prefix : bytes -> bytes -> bytes res
+
+val spec_ipv6prefix : bytes -> (bytes * bytes) res
 
 val is_key : z -> avp -> bool
 
@@ -631,5 +789,15 @@ val t_bytes : bytes -> tok list
 val t_pair : (bytes * bytes) -> tok list
 
 val dispatch_pw : bytes -> bytes list -> z list -> tok list option
+
+val t_n : n -> tok list
+
+val t_z : z -> tok list
+
+val t_nb : (n * bytes) -> tok list
+
+val zn : z list -> n
+
+val dispatch_codec : bytes -> bytes list -> z list -> tok list option
 
 val dispatch : bytes -> bytes list -> z list -> tok list
